@@ -916,6 +916,10 @@ func (e *Env) evalCall(x *ECall) Val {
 			t = app("sl.base", v.T)
 		}
 		return boolVal(sAnd(app(">=", t, g.heapGet(e.old, g.allocHeap())), app("<", t, g.heapGet(e.st, g.allocHeap()))))
+	case "oldobj":
+		// oldobj(r): r denotes a cell of an object that existed at function entry — exactly the range of the frame obligation
+		// (a plain reference below the entry allocation counter, or a derived in-object array reference whose owner is)
+		return boolVal(oldObj(arg(0).T, g.heapGet(g.entry, "Alloc")))
 	case "allocated":
 		v := arg(0)
 		return boolVal(app("<", v.T, g.heapGet(e.st, g.allocHeap())))
